@@ -94,7 +94,7 @@ fn hint_s(h: (usize, Option<usize>)) -> String { format!("hint={}:{}", h.0, h.1.
 /// the history on the iterator and on the deque(s) of its items
 fn run<I: Iterator + Clone, F: Fn(&I::Item) -> String>(it: I, f: F, caps: Caps<I>, hist: &str, want_n: Option<usize>) -> String {
 	let mut dq0 = VecDeque::new();
-	for x in it.clone() { dq0.push_back(f(&x)); if dq0.len() > 20000 { return "toolong".to_string(); } }
+	for x in it.clone() { dq0.push_back(f(&x)); if dq0.len() > 70000 { return "toolong".to_string(); } }
 	let n0 = dq0.len();
 	let ids = { let t = dq0.iter().cloned().collect::<Vec<_>>().join(";"); if t.is_empty() { "-".to_string() } else if t.len() > 600 { format!("#{}", digest(t.as_bytes())) } else { t } };
 	let layout_same = caps.layout.as_ref().map(|l| l.iter().eq(dq0.iter()));
